@@ -4,7 +4,7 @@ from __future__ import annotations
 import ast
 
 from ..astutil import attr_chain, call_method, enum_member, short, src, ancestors, kwarg
-from ..linear import Normaliser, Sym
+from ..linear import Normaliser, Sym, relation, same_relation
 from ..model import walk_local, AnalysisError
 from ..report import Ctx
 from ..engines import tokeniser as T
@@ -371,6 +371,96 @@ def _check(ctx: Ctx) -> None:
         ctx.check(okd, "RUN", f"tokenise: the previous {pr.lower()} starts from a value no note can have (forces the first emission)", function=fe.qualname,
                   construct=f"initial previous {pr.lower()} could equal a real value", message=f"{[short(i_) for i_ in ini]}", file=fe.file, node=fe.node)
 
+    # ---- RUN (existence): each running value has its separate token under the unfused test and its fused part under the fused test
+    from ..astutil import path_conditions
+    for pr, flag in (("TRACK", "flag_fuse_track"), ("VALUE", "flag_fuse_value"), ("VELOCITY", "flag_fuse_velocity")):
+        sep = [c for c, js in sites.get(pr, []) if note_if in list(ancestors(c))]
+        oks = False
+        for c in sep:
+            pcs = [(t, h) for t, h in path_conditions(c, note_if)]
+            oks = oks or (len(pcs) == 1 and pcs[0][1] and flag in src(pcs[0][0]) and src(pcs[0][0]).startswith(f"not self.{flag}"))
+        ctx.check(oks, "RUN", f"tokenise: a separate {pr} token is emitted under the unfused test", function=fe.qualname,
+                  construct=f"no separate {pr} token is emitted when {pr.lower()} is not fused",
+                  message=f"{len(sep)} emission(s) in the note branch: detokenise would keep using the running {pr.lower()} of an earlier note", file=fe.file,
+                  node=sep[0] if sep else note_if)
+        fused = [n for n in ast.walk(note_if) if isinstance(n, ast.AugAssign) and isinstance(n.value, ast.JoinedStr)
+                 and any(isinstance(v, ast.FormattedValue) and enum_member(v.value, "TokenisationPrefixes") == pr for v in n.value.values)]
+        okf = False
+        for n in fused:
+            pcs = path_conditions(n, note_if)
+            okf = okf or (bool(pcs) and pcs[0][1] and src(pcs[0][0]) == f"self.{flag}" and all((not h) and flag in src(t) for t, h in pcs[1:]))
+        ctx.check(okf, "RUN", f"tokenise: the {pr} part is fused into the note token under `self.{flag}`", function=fe.qualname,
+                  construct=f"no fused {pr} part when {pr.lower()} is fused", message=f"{len(fused)} fused part(s)", file=fe.file, node=fused[0] if fused else note_if)
+
+    # ---- DISPATCH: kind, time and channel of an event are read from the first message of its pairing; the note branch runs
+    # for NOTE_ON, the signature branch for TIME_SIGNATURE
+    defs = {s_.targets[0].id: s_.value for s_ in pre if isinstance(s_.targets[0], ast.Name)}
+    tvar = note_if.test.left.id if isinstance(note_if.test.left, ast.Name) else None
+    tdef = defs.get(tvar)
+    ctx.check(isinstance(note_if.test.ops[0], ast.Eq) and tdef is not None and nze.norm(tdef) == nze.norm(ast.parse(f"{pairing}[0].message_type", mode="eval").body), "DISPATCH",
+              f"tokenise: the note branch runs iff the pairing's first message is a NOTE_ON", function=fe.qualname,
+              construct="note branch of tokenise is not selected by `first message of the pairing is NOTE_ON`",
+              message=f"`{short(note_if.test)}` with `{tvar} = {short(tdef) if tdef is not None else '?'}`", file=fe.file, node=note_if)
+    ts_ifs = [n for n in ast.walk(loop) if isinstance(n, ast.If) and isinstance(n.test, ast.Compare) and len(n.test.ops) == 1
+              and enum_member(n.test.comparators[0], "MessageType") == "TIME_SIGNATURE"]
+    ts_sites = sites.get("TIME_SIGNATURE", [])
+    okt = len(ts_ifs) == 1 and isinstance(ts_ifs[0].test.ops[0], ast.Eq) and src(ts_ifs[0].test.left) == tvar \
+        and all(any(c is x for y in ts_ifs[0].body for x in ast.walk(y)) for c, _ in ts_sites) and bool(ts_sites)
+    if okt:
+        pcs = path_conditions(ts_ifs[0], loop)
+        okt = all((not h) for t, h in pcs if "MessageType" in src(t)) and all("MessageType" in src(t) for t, h in pcs)
+    ctx.check(okt, "DISPATCH", "tokenise: the signature branch runs iff the pairing's first message is a TIME_SIGNATURE (and it is not a note)", function=fe.qualname,
+              construct="signature branch of tokenise is not selected by `first message of the pairing is TIME_SIGNATURE`",
+              message=f"{[short(n.test) for n in ts_ifs]}", file=fe.file, node=ts_ifs[0] if ts_ifs else loop)
+    for pr_site, lst in (("PITCH", sites.get("PITCH", [])),):
+        pass
+    note_tokens = [c for c in ast.walk(note_if) if isinstance(c, ast.Call) and call_method(c)[1] == "append" and c.args and isinstance(c.args[0], ast.Name)]
+    ctx.check(any(not path_conditions(c, note_if) for c in note_tokens), "DISPATCH", "tokenise: every note appends its note token unconditionally", function=fe.qualname,
+              construct="the note token of a note is not appended on every path of the note branch", message=f"{[short(c) for c in note_tokens]}",
+              file=fe.file, node=note_if)
+
+    # ---- INPUT: the events come from one sequence into which every input was merged, each labelled with its track index
+    prc = next((c for c in ast.walk(fe.node) if isinstance(c, ast.Call) and call_method(c)[1] == "get_interleaved_message_pairings"), None)
+    inp = fe.params[1]
+    okm = False
+    if prc is not None and isinstance(call_method(prc)[0], ast.Name):
+        hub = call_method(prc)[0].id
+        merges = [c for c in ast.walk(fe.node) if isinstance(c, ast.Call) and call_method(c)[1] == "merge" and src(call_method(c)[0]) == hub
+                  and c.args and src(c.args[0]) == inp and c.lineno < prc.lineno and not path_conditions(c)]
+        fresh = [s_ for s_ in fe.node.body if isinstance(s_, ast.Assign) and isinstance(s_.targets[0], ast.Name) and s_.targets[0].id == hub
+                 and isinstance(s_.value, ast.Call) and src(s_.value.func) == "Sequence" and not s_.value.args and not s_.value.keywords]
+        okm = len(merges) == 1 and bool(fresh) and fresh[-1].lineno < merges[0].lineno
+    ctx.check(okm, "INPUT", "tokenise: the events are read from a fresh sequence into which all inputs were merged", function=fe.qualname,
+              construct="tokenise does not merge all input sequences into the sequence it reads events from",
+              message="without the merge no event (or only one track) reaches the token stream", file=fe.file, node=prc or fe.node)
+    setch = [c for c in ast.walk(fe.node) if isinstance(c, ast.Call) and call_method(c)[1] == "set_channel"]
+    oksc = False
+    for c in setch:
+        lp_ = next((a for a in ancestors(c) if isinstance(a, ast.For)), None)
+        if lp_ is not None and isinstance(lp_.iter, ast.Call) and src(lp_.iter.func) == "enumerate" and src(lp_.iter.args[0]) == inp \
+                and isinstance(lp_.target, ast.Tuple) and src(call_method(c)[0]) == src(lp_.target.elts[1]) and c.args and src(c.args[0]) == src(lp_.target.elts[0]) \
+                and not path_conditions(c, lp_) and prc is not None and c.lineno < prc.lineno:
+            oksc = True
+    ctx.check(oksc, "INPUT", "tokenise: input k is labelled with channel k before the merge", function=fe.qualname,
+              construct="inputs are not labelled with their track index before merging", message=f"{[short(c) for c in setch]}", file=fe.file,
+              node=setch[0] if setch else fe.node)
+
+    # ---- BAR: the bar token is written exactly when the bar is full and bar tokens are requested; the bar bookkeeping does not depend on the flag
+    for c, a in sites.get("BAR", []):
+        pcs = path_conditions(c)
+        flagp = fe.params[2] if len(fe.params) > 2 else None
+        flag_ok = [t for t, h in pcs if isinstance(t, ast.Name) and t.id == flagp and h]
+        full_ok = [t for t, h in pcs if h and relation(t, Normaliser()) is not None and same_relation(relation(t, Normaliser()), Sym.atom(eroles["cur_bar_capacity_remaining"]), "==")]
+        ctx.check(len(pcs) == 2 and len(flag_ok) == 1 and len(full_ok) == 1, "BAR", "tokenise: a BAR token is written iff the bar is full and bar tokens are requested",
+                  function=fe.qualname, construct="BAR token emitted under a condition other than `bar full and insert_bar_token`",
+                  message=f"{[(short(t), h) for t, h in pcs]}", file=fe.file, node=c)
+        if full_ok:
+            full_if = next(a_ for a_ in ancestors(c) if isinstance(a_, ast.If) and a_.test is full_ok[0])
+            resets = [s_ for s_ in full_if.body if isinstance(s_, ast.Assign) and isinstance(s_.targets[0], ast.Name)
+                      and s_.targets[0].id in (eroles["cur_time_bar"], eroles["cur_bar_capacity_remaining"])]
+            ctx.check(len(resets) == 2, "BAR", "tokenise: bar time and remaining capacity are reset whenever a bar is full, with or without BAR tokens", function=fe.qualname,
+                      construct="bar bookkeeping of tokenise depends on insert_bar_token", message=f"{[short(x) for x in resets]}", file=fe.file, node=full_if)
+
     # ---- REST amount and CLOSE
     calls = [c for c in ast.walk(fe.node) if isinstance(c, ast.Call) and isinstance(c.func, ast.Name) and c.func.id == "_apply_rest"]
     ctx.floor("_apply_rest call sites", len(calls), 2)
@@ -389,6 +479,18 @@ def _check(ctx: Ctx) -> None:
         want_ = got if shift_ok else None
         ctx.check(shift_ok, "REST", "tokenise: rest before an event = event time + carried shift - clock", function=fe.qualname,
                   construct="rest before an event is not (event time + shift) - clock", message=got.canon(), file=fe.file, node=c)
+        # reached for every event whose time differs from the clock (and before the event is emitted)
+        pcs = path_conditions(c, loop)
+        okr = True
+        for t, h in pcs:
+            rr = relation(t, nzr)
+            d = nzr.norm(ast.parse(f"{pairing}[0].time", mode="eval").body) + (got - nzr.norm(ast.parse(f"{pairing}[0].time", mode="eval").body) + Sym.atom(eroles["cur_time"])) - Sym.atom(eroles["cur_time"])
+            same = rr is not None and (same_relation(rr, got, "!=") or same_relation(rr, got, ">")) and h
+            same = same or (rr is not None and same_relation(rr, got, "==") and not h)
+            okr = okr and same
+        ctx.check(okr and c.lineno < note_if.lineno, "REST", "tokenise: the rest is emitted whenever the event's time differs from the clock, before the event", function=fe.qualname,
+                  construct="the rest before an event is emitted under a condition other than `event time != clock`",
+                  message=f"{[(short(t), h) for t, h in pcs]}", file=fe.file, node=c)
     tail = [c for c in calls if loop not in list(ancestors(c))]
     ok = False
     for c in tail:
@@ -481,7 +583,25 @@ def rest_sum_rule(ctx: Ctx, fe, sites, eroles) -> None:
                   construct="emitted rest value is not the largest step size that fits", message=f"{[short(d, 80) for d in defs]}", file=fe.file, node=loop)
 
 
+def _st2(ctx):
+    """A single call starts from the state defaults: they must be detokenise's initial clock (rule ST2 of C03)."""
+    from . import c03
+    sub = Ctx(ctx.p, ctx.prop, ctx.tier)
+    c03._main_check(sub)
+    for o in sub.obligations:
+        if o.rule == "ST2":
+            ctx.obligations.append(o)
+    for f in sub.findings:
+        if f.rule == "ST2":
+            ctx.findings.append(f)
+
+
 def _extra(ctx):
+    _st2(ctx)
+    # the Sequence-level operations tokenise / detokenise go through keep both views coherent (labelling the tracks with
+    # set_channel before merging reads the absolute view)
+    from .common import view_deps
+    view_deps(ctx)
     from ..engines import keykind as _kk
     _kk.check_function(ctx, "AbsoluteSequence.get_message_pairings", "KEY", expect_min=2)
     from ..engines.pairing import check_pairings
